@@ -197,9 +197,8 @@ def _decode_struct(buffer: "_Buffer", fcp: "ref:FcpV2", name: "str") -> "dyn":
     modifies(buffer.bitaddr)
     may_raise(Exception)
     ensures(buffer.bitaddr >= old(buffer.bitaddr))
-    no_raise_if(conforms_struct(fcp, name, v) and starts_struct(fcp, name, buffer.gbits, buffer.bitaddr, v))
-    ensures(implies(conforms_struct(fcp, name, v)
-                    and starts_struct(fcp, name, buffer.gbits, old(buffer.bitaddr), v),
+    no_raise_if(rt_hyp(fcp, name, buffer.gbits, buffer.bitaddr, v))
+    ensures(implies(rt_hyp(fcp, name, buffer.gbits, old(buffer.bitaddr), v),
                     result == v and buffer.bitaddr == old(buffer.bitaddr) + len(wire_struct(fcp, name, v))))
     ensures(buffer.bitaddr >= old(buffer.bitaddr) + min_fields(fcp, sorted_fields(struct_of(fcp, name)), len(sorted_fields(struct_of(fcp, name)))))
     ensures(buffer.bitaddr <= 8 * arr_len(buffer.buffer) or buffer.bitaddr == old(buffer.bitaddr))     # C16
